@@ -7,7 +7,7 @@
 
 TIERS = {
     'C02': {'quick': dict(runs=32000, batch=250, wall=600), 'thorough': dict(runs=640000, batch=1000, wall=5400)},
-    'C04': {'quick': dict(runs=9600, batch=75, wall=600), 'thorough': dict(runs=192000, batch=300, wall=5400)},
+    'C04': {'quick': dict(runs=24000, batch=150, wall=600), 'thorough': dict(runs=480000, batch=600, wall=5400)},
     'C05': {'quick': dict(runs=16000, batch=125, wall=600), 'thorough': dict(runs=320000, batch=500, wall=5400)},
     'C06': {'quick': dict(runs=7200, batch=60, wall=600), 'thorough': dict(runs=144000, batch=240, wall=5400)},
     'C07': {'quick': dict(runs=12000, batch=100, wall=600), 'thorough': dict(runs=240000, batch=400, wall=5400)},
